@@ -287,7 +287,7 @@ def main():
         "version": 1,
         "setup_cmd": "mkdir -p .work evidence/replays && /venv/bin/python -m compileall -q harness && tla-sany spec/SmAbs.tla >/dev/null",
         "hooks": {"guard": "SECSGEM_VERIF", "enable": "no source hooks: the harness substitutes module references "
-                  "(threading/queue/time/socket/select/random) from outside; SECSGEM_VERIF=1 is exported by ./check for "
+                  "(threading/queue/time/socket/select/random/datetime) from outside; SECSGEM_VERIF=1 is exported by ./check for "
                   "forward compatibility only", "baseline_off_cmd": BASELINE_OFF, "source_commits": [], "add_only": True},
         "engines": [{"name": "tlc+replay", "path": "/verif/check", "serves_properties": sorted(CLAIMED),
                      "kind_free_text": "TLA+ specifications under /verif/spec checked by TLC; behaviours generated by TLC are "
